@@ -53,7 +53,7 @@ namespace cdsv {
         // the id travels through payload_copy so that TSan attributes a race on stored user data to the harness (see core.h)
         Item( Item const& o ) : key( o.key ), magic( o.magic ) { payload_copy( reinterpret_cast<uint64_t*>( &id ), reinterpret_cast<uint64_t const*>( &o.id ), 1 ); }
         Item& operator=( Item const& o ) { key = o.key; magic = o.magic; payload_copy( reinterpret_cast<uint64_t*>( &id ), reinterpret_cast<uint64_t const*>( &o.id ), 1 ); return *this; }
-        ~Item() { magic = ITEM_DEAD; }
+        ~Item() { magic = ITEM_DEAD; poison_barrier(); }
     };
     struct ItemLess {
         bool operator()( Item const& a, Item const& b ) const { return a.key < b.key; }
